@@ -31,15 +31,15 @@ const queryPkg = "lib/util/lifted/influx/query"
 // fields of T never shipped on purpose (frozen, one reason each)
 var c12NotShipped = map[string]string{
 	// handles of the sql-side execution, meaningless on another node
-	"ProcessorOptions.Authorizer":  "sql-side handle (fine-grained auth is evaluated on the sql node)",
-	"ProcessorOptions.InterruptCh": "channel of the sql-side executor",
-	"ProcessorOptions.AbortChan":   "channel of the sql-side executor",
-	"ProcessorOptions.RowsChan":    "channel of the sql-side executor",
-	"ProcessorOptions.ctx":         "context of the sql-side executor",
-	"ProcessorOptions.Chunked":     "HTTP response chunking, applied by the sql node",
-	"ProcessorOptions.ChunkedSize": "HTTP response chunking, applied by the sql node",
-	"ProcessorOptions.StmtId":      "statement bookkeeping of the sql node",
-	"ProcessorOptions.Parallel":    "no reader on the pinned tree",
+	"ProcessorOptions.Authorizer":   "sql-side handle (fine-grained auth is evaluated on the sql node)",
+	"ProcessorOptions.InterruptCh":  "channel of the sql-side executor",
+	"ProcessorOptions.AbortChan":    "channel of the sql-side executor",
+	"ProcessorOptions.RowsChan":     "channel of the sql-side executor",
+	"ProcessorOptions.ctx":          "context of the sql-side executor",
+	"ProcessorOptions.Chunked":      "HTTP response chunking, applied by the sql node",
+	"ProcessorOptions.ChunkedSize":  "HTTP response chunking, applied by the sql node",
+	"ProcessorOptions.StmtId":       "statement bookkeeping of the sql node",
+	"ProcessorOptions.Parallel":     "no reader on the pinned tree",
 	"ProcessorOptions.IsArrowQuery": "result format chosen by the sql node",
 	// planning state consumed only by operators that run on the sql node (no read under engine/ outside engine/executor on the pinned tree)
 	"ProcessorOptions.BinOp":          "PromQL binary-op plan state, sql-side operators only",
@@ -753,6 +753,8 @@ func c12round2(c *an.Ctx) {
 							key := d.Name() + ": " + y.Tok.String() + " in loop over " + over
 							if why, ok := c12CodecSkips[key]; ok {
 								r5.Except(key, why)
+							} else if y.Tok.String() == "continue" && continueAfterEmit(c, d, y) {
+								// the element was emitted (append / indexed store) on every path to this continue: nothing is skipped
 							} else {
 								r5.Fail(key, c.P.Pos(y.Pos()), "%s skips elements of %s while encoding/decoding: the lists of an IndexRelation (Oids, IndexNames, IndexList, IndexOptions) are addressed by one index, a compacted list is shifted against the others on the store node", d.Name(), over)
 							}
@@ -767,4 +769,50 @@ func c12round2(c *an.Ctx) {
 	}
 	r5.AddSites(n)
 	r5.Floor(12, "loops in the option codec")
+}
+
+// continueAfterEmit reports whether every path from the start of the loop body to the
+// `continue` statement passes a statement that emits an element (dst = append(dst, …) or
+// dst[i] = …): such a continue ends the iteration early but does not skip the element.
+func continueAfterEmit(c *an.Ctx, d *an.FuncSrc, br *ast.BranchStmt) bool {
+	f := c.P.Fn(d)
+	if f == nil {
+		return false
+	}
+	isEmit := func(st ast.Stmt) bool {
+		as, ok := st.(*ast.AssignStmt)
+		if !ok {
+			return false
+		}
+		for i, l := range as.Lhs {
+			if _, isIdx := ast.Unparen(l).(*ast.IndexExpr); isIdx {
+				return true
+			}
+			if i < len(as.Rhs) {
+				if ce, ok := ast.Unparen(as.Rhs[i]).(*ast.CallExpr); ok {
+					if id, ok := ce.Fun.(*ast.Ident); ok && id.Name == "append" {
+						return true
+					}
+				}
+			}
+		}
+		return false
+	}
+	// the statements of the enclosing block that precede the continue are executed on every path to it
+	var list []ast.Stmt
+	switch p := f.Parent(br).(type) {
+	case *ast.BlockStmt:
+		list = p.List
+	case *ast.CaseClause:
+		list = p.Body
+	}
+	for _, st := range list {
+		if st == ast.Stmt(br) {
+			break
+		}
+		if isEmit(st) {
+			return true
+		}
+	}
+	return false
 }
